@@ -2636,6 +2636,9 @@ setattr_delegate(
     PyObject *temp;
     has_traits_object *delegate;
     has_traits_object *temp_delegate;
+    PyObject *held = NULL; /* owned reference to a delegate that is not stored
+                              in an instance dictionary (e.g. the value of a
+                              property: possibly a temporary) */
     int i, result;
 
     /* Follow the delegation chain until we find a non-delegated trait: */
@@ -2656,14 +2659,18 @@ setattr_delegate(
             delegate = (has_traits_object *)has_traits_getattro(
                 delegate, traitd->delegate_name);
             if (delegate == NULL) {
+                Py_XDECREF(held);
                 Py_DECREF(daname);
                 return -1;
             }
-            Py_DECREF(delegate);
+            /* Keep it alive until the walk has moved on or finished. */
+            Py_XDECREF(held);
+            held = (PyObject *)delegate;
         }
 
         // Verify that 'delegate' is of type 'CHasTraits':
         if (!PyHasTraits_Check(delegate)) {
+            Py_XDECREF(held);
             Py_DECREF(daname);
             return bad_delegate_error2(obj, name);
         }
@@ -2679,11 +2686,13 @@ setattr_delegate(
                      delegate->ctrait_dict, daname))
                 == NULL)
             && ((traitd = get_prefix_trait(delegate, daname, 1)) == NULL)) {
+            Py_XDECREF(held);
             Py_DECREF(daname);
             return bad_delegate_error(obj, name);
         }
 
         if (Py_TYPE(traitd) != ctrait_type) {
+            Py_XDECREF(held);
             Py_DECREF(daname);
             return fatal_trait_error();
         }
@@ -2715,12 +2724,15 @@ setattr_delegate(
             }
             Py_DECREF(traitd);
             Py_DECREF(delegate);
+            Py_XDECREF(held);
             Py_DECREF(daname);
 
             return result;
         }
 
         if (++i >= 100) {
+            Py_XDECREF(held);
+            Py_DECREF(daname);
             return delegation_recursion_error(obj, name);
         }
     }
